@@ -25,9 +25,9 @@ import time
 
 VERIF = os.path.dirname(os.path.dirname(os.path.abspath(__file__)))
 REPO = os.path.abspath(os.environ.get("VERIF_REPO", "/repo"))
-PRIVATE = REPO != "/repo"   # a private worktree (mutation experiments): Gen/ is not regenerated, harness built from a copy
-COQ = os.path.join(VERIF, "coq")
+PRIVATE = REPO != "/repo"   # a private worktree (mutation experiments): private copies of coq/ and harness/ are used
 BUILD = os.path.join(VERIF, "build")
+COQ = os.path.join(VERIF, "coq")
 BIN = os.path.join(BUILD, "bin")
 HARNESS = os.path.join(VERIF, "harness")
 TRANSLATOR = os.path.join(VERIF, "translator")
@@ -43,6 +43,10 @@ GOENV.update({
     "GONOSUMDB": "*",
     "CGO_ENABLED": os.environ.get("CGO_ENABLED", "0"),
 })
+
+PTAG = hashlib.sha256(REPO.encode()).hexdigest()[:10] if PRIVATE else ""
+if PRIVATE:
+    COQ = os.path.join(BUILD, "coq_" + PTAG)
 
 FORBIDDEN = re.compile(
     r"\b(Admitted|admit|Axiom|Axioms|Parameter|Parameters|Conjecture|Conjectures|Hypothesis|Hypotheses|Variable|Variables|"
@@ -166,6 +170,14 @@ class Ctx:
         self.known, self.fixed = known_findings(pid)
         self.level = "proof"
         self.log_lines = []
+        if PRIVATE:
+            # private copy of the Coq development (with its compiled files) so that regeneration
+            # from the private worktree does not disturb /verif/coq
+            with Lock("build_" + PTAG):
+                os.makedirs(COQ, exist_ok=True)
+                rc, out = sh(["rsync", "-a", "--delete", os.path.join(VERIF, "coq") + "/", COQ + "/"])
+                if rc != 0:
+                    raise RuntimeError("rsync of coq/ failed: " + out)
 
     # ---------------------------------------------------------------- utilities
     def log(self, *a):
@@ -209,10 +221,7 @@ class Ctx:
     # ---------------------------------------------------------------- K-gen
     def regen(self, gens):
         """Run the translator for the named generators; Gen/*.v are rewritten only if changed."""
-        if PRIVATE:
-            self.log("VERIF_REPO=%s: regen skipped (coq/Gen is shared and stays generated from /repo)" % REPO)
-            return True
-        with Lock("build"):
+        with Lock("build" + PTAG):
             os.makedirs(BIN, exist_ok=True)
             rc, out = sh(["go", "build", "-o", os.path.join(BIN, "translator"), "."], cwd=TRANSLATOR, env=GOENV, timeout=600)
             if rc != 0:
@@ -253,7 +262,7 @@ class Ctx:
         thms = re.findall(r"^\s*(?:Theorem|Lemma|Corollary|Example|Fact)\s+([A-Za-z0-9_']+)", text, re.M)
         self.obligations += len(thms)
         cmd = "make -j16 %s" % target
-        with Lock("build"):
+        with Lock("build" + PTAG):
             self.ensure_coq_makefile()
             try:
                 os.remove(os.path.join(COQ, target))
@@ -338,9 +347,9 @@ class Ctx:
         """Build (if stale) and return the path of the extracted-model runner build/bin/model_<name>.
 
         coq/Extract/<Name>.v must `Extraction "<name>model.ml" ...`; ocaml/<name>_driver.ml is the driver."""
-        exe = os.path.join(BIN, "model_" + name)
+        exe = os.path.join(BIN, "model_" + name + ("_" + PTAG if PRIVATE else ""))
         cap = name[0].upper() + name[1:]
-        with Lock("build"):
+        with Lock("build" + PTAG):
             self.ensure_coq_makefile()
             rc, out = sh("ulimit -v 12000000; timeout %d make -j16 Extract/%s.vo" % (timeout, cap), cwd=COQ)
             if rc != 0:
@@ -349,7 +358,7 @@ class Ctx:
             drv = os.path.join(VERIF, "ocaml", name + "_driver.ml")
             if (not os.path.exists(exe) or os.path.getmtime(exe) < os.path.getmtime(ml)
                     or os.path.getmtime(exe) < os.path.getmtime(drv)):
-                d = os.path.join(BUILD, "ocaml_" + name)
+                d = os.path.join(BUILD, "ocaml_" + name + PTAG)
                 shutil.rmtree(d, ignore_errors=True)
                 os.makedirs(d)
                 for f in (ml, ml + "i"):
@@ -367,7 +376,7 @@ class Ctx:
         exe = os.path.join(BIN, "h_" + name + ("_race" if race else ""))
         if PRIVATE:
             return self._harness_private(name, tags, race, timeout)
-        with Lock("build"):
+        with Lock("build" + PTAG):
             self.sync_gosum()
             cmd = ["go", "build", "-tags", tags, "-o", exe]
             env = dict(GOENV)
@@ -380,7 +389,7 @@ class Ctx:
         return exe
 
     def _harness_private(self, name, tags, race, timeout):
-        tag = sha(REPO)
+        tag = PTAG
         hdir = os.path.join(BUILD, "harness_" + tag)
         exe = os.path.join(BIN, "h_%s_%s%s" % (name, tag, "_race" if race else ""))
         with Lock("build_" + tag):
